@@ -25,6 +25,21 @@ CHECK = {
     "opts": {"unwind": 16, "select_precise": True, "birth_guard_stores": True, "map_range": "per_entry", "map_dedup": True, "feas_from_iter": 100,
              "substitute": {"(*github.com/tochemey/goakt/v4/discovery.Node).PeersAddress": P + "vC34_peersAddress"},
              "stub": ["(*" + P + "cluster).detectLeaderChangeLocked"]},
-    "explanation": "",
-    "bounds": {},
+    "timeout_ms": {"quick": 170000, "thorough": 1500000},
+    "explanation": "internal/cluster/cluster.go trackNodeJoinEvent, trackNodeLeftEvent, emitOverdueNodeLeft, processRebalanceStart, processRebalanceComplete, assign{Join,Left}EpochLocked, "
+                   "emitPending{Join,Left}ForEpochLocked, emitNode{Left,Joined}Locked and sendEventLocked (real non-blocking channel send) are executed symbolically on a real cluster struct. "
+                   "(1) vC34_step: ONE arbitrary notification (kind in {node-join, node-left, rebalance-start(reason, epoch, node), rebalance-complete(epoch), node-left timeout}; one job per kind) from an ARBITRARY "
+                   "state of the ten bookkeeping maps/sets/fields and of the reference monitor that satisfies a 12-clause representation invariant; obligations: the monitor's rules for every emitted event "
+                   "(never the local node; only notified nodes; at most one NodeLeft/NodeJoined per node until the opposite event (notification or emission); NodeLeft only in the node's timeout step or once the latest "
+                   "node-left rebalance epoch has completed, same for NodeJoined with node-join epochs; a recorded departure IS reported in those steps) and the invariant again afterwards; vC34_init: the invariant holds initially "
+                   "=> histories of any length over the node/epoch domain. (2) vC34_history3/4: every history of 3 (thorough 4) notifications from the real initial state against the same monitor (first kind(s) split into jobs). "
+                   "(3) vC34_redeparture: witness history for known finding C34-2. Substituted: discovery.Node.PeersAddress (returns the harness node's real value 'h0:1'; net.JoinHostPort is outside the encoder), "
+                   "the two goset filters are a harness set type (map-backed Add/Contains/Remove); auto-stubbed: detectLeaderChangeLocked (leader-change events are not part of the property), time.AfterFunc (the timeout is a "
+                   "harness-driven step), time.UnixMilli. handleClusterEvent's JSON decoding is not executed (typed handlers are called).",
+    "bounds": {"nodes": "local node + 3 peers (4 addresses)", "epochs": "1..3", "reasons": "node-left, node-join, other",
+               "inductive step": "1 notification from any invariant state", "quick": {"history": 3}, "thorough": {"history": 4},
+               "event channel": "capacity 8 (step) / K (history): never full, so the documented drop-on-full path is outside the claim"},
+    "assumptions": ["engine options select_precise (a non-blocking send on the event channel succeeds exactly when there is room; no concurrent reader), birth_guard_stores, map_range=per_entry, map_dedup",
+                    "map iteration order is insertion order (the emitted SET of events per step does not depend on it; only the order inside one step does)",
+                    "the 'epoch covering a departure' is the code's own rule: the most recently first-seen node-left rebalance start; an earlier, already completed epoch therefore releases a later departure at once (reported to the lead as an observation, not asserted)"],
 }
